@@ -1,5 +1,6 @@
 """sciparse wire layout -> Gen/Layout.v, Gen/Tables.v
-(src, need, emit, missing, re are injected by tools/gen.py)
+(src, need, expect, emit, missing, re are injected by tools/gen.py; need = hard: generated tables and
+constants; expect = soft: mirrored statements whose behaviour the correspondence harness observes)
 
 Layout.v : every `gen_bitrange_const!(NAME, start, width)` of the layout.rs files as
            `<Struct>_<NAME> : N * N := (start, width)` (Struct = impl block name minus a trailing
@@ -256,8 +257,9 @@ def generate():
     for k, v in ha:
         out.append(f"Definition HAT_{v.upper()} : N := {k}.")
     out.append("Definition host_addr_type_known : list N := [" + "; ".join(str(k) for k, _ in ha) + "].")
-    need(t, r"let id = other >> 2;\s*let size = \(\(other & 0b11\) \+ 1\) \* 4;", "WireHostAddrType unknown id/size formula", rel)
-    need(t, r"\(type_id << 2\) \| \(size / 4\)\.saturating_sub\(1\)", "WireHostAddrType -> u8 formula", rel)
+    # mirrored statements (observed by the C02 / C03 harness through every address nibble): soft
+    expect(t, r">>\s*2\b.*?&\s*(?:0b11|3|0x3)\b[^;]*\+\s*1\s*\)\s*\*\s*4", "WireHostAddrType unknown id/size formula (nibble >> 2, ((nibble & 3) + 1) * 4)", rel, re.S)
+    expect(t, r"<<\s*2\s*\)?\s*\|[^;]*/\s*4", "WireHostAddrType -> u8 formula ((id << 2) | size / 4 - 1)", rel)
     sz = need(t, r"WireHostAddrType::IPV4 => 4,\s*WireHostAddrType::IPV6 => 16,\s*WireHostAddrType::Service => 4,\s*WireHostAddrType::Unknown \{ size, \.\. \} => \*size,", "WireHostAddrType::size arms", rel)
     out.append("Definition HAT_IPV4_SIZE : N := 4.\nDefinition HAT_IPV6_SIZE : N := 16.\nDefinition HAT_SERVICE_SIZE : N := 4.")
     rel = P + "proto/payload.rs"
@@ -315,32 +317,40 @@ def generate():
     out.append(f"Definition scmp_as_raw_mut_is_unsafe : bool := {'true' if len(raws) == 2 and raws[1] else 'false'}.")
     mut_from = re.search(r"From<&'a mut ScionUdpPacketView> for &'a mut ScionRawPacketView", t) is not None
     out.append(f"Definition udp_mut_into_raw_mut_impl : bool := {'true' if mut_from else 'false'}.")
-    need(t, r"std::cmp::min\(layout\.header_len \+ layout\.payload_len, buf\.len\(\)\)", "ScionRawPacketView::has_required_size min()", rel)
+    # --- mirrored statements whose behaviour the harness observes: SOFT (expect), semantics only ---
+    def fn_body(text, name):
+        m = re.search(r"\bfn\s+" + name + r"\b", text)
+        if not m:
+            return ""
+        n = re.search(r"\bfn\s+\w+", text[m.end():])
+        return text[m.start(): m.end() + (n.start() if n else len(text))]
+    expect(t, r"header_len\s*\+\s*[\w.]*payload_len", "ScionRawPacketView::has_required_size header_len + payload_len", rel)
+    expect(t, r"\bmin\s*\(", "ScionRawPacketView::has_required_size min() with the buffer length", rel)
     # C02: the owned constructor requires the EXACT size (an oversized Box<[u8]> would be
-    # reinterpreted as Box<[u8; N]> by the fixed-size views); the borrowed ones split at `size`
+    # reinterpreted as Box<[u8; N]> by the fixed-size views); the borrowed ones split at `size`.
+    # Observed by h_wire_views (constructor families on exact / short / long inputs).
     rel = P + "core/view.rs"
     t = strip_comments(src(rel))
-    need(t, r"fn try_from_boxed\(buf: Box<\[u8\]>\)[^{]*\{\s*let size = Self::has_required_size\(&buf\)\?;\s*if buf\.len\(\) != size \{\s*return Err\(",
-         "View::try_from_boxed exact-size check `buf.len() != size`", rel)
-    need(t, r"fn try_from_slice\(buf: &\[u8\]\)[^{]*\{\s*let size = Self::has_required_size\(buf\)\?;.*?buf\.split_at_unchecked\(size\)",
+    boxed_exact = expect(fn_body(t, "try_from_boxed"), r"\.len\(\)\s*!=\s*\w+|\w+\s*!=\s*\w+\.len\(\)",
+         "View::try_from_boxed exact-size check (`len != size`)", rel)
+    expect(fn_body(t, "try_from_slice"), r"has_required_size\(.*?split_at(?:_unchecked|_checked)?\(",
          "View::try_from_slice splits at the required size", rel, re.S)
-    need(t, r"fn try_from_mut_slice\(buf: &mut \[u8\]\)[^{]*\{\s*let size = Self::has_required_size\(buf\)\?;.*?buf\.split_at_mut_unchecked\(size\)",
+    expect(fn_body(t, "try_from_mut_slice"), r"has_required_size\(.*?split_at_mut(?:_unchecked|_checked)?\(",
          "View::try_from_mut_slice splits at the required size", rel, re.S)
-    out.append("Definition boxed_ctor_requires_exact_size : bool := true.")
+    out.append(f"Definition boxed_ctor_requires_exact_size : bool := {'true' if boxed_exact else 'false'}.")
     # C03: the bounds the encoder's gate compares the length fields against (the model's
-    # wire_valid uses the same numbers: Codec.packet_wire_valid)
+    # wire_valid uses the same numbers: Codec.packet_wire_valid).  Observed by h_wire_codec
+    # (directed totals 65534..65537 for every payload kind, header sizes 1016..1028).
     rel = P + "proto/packet/model.rs"
     t = strip_comments(src(rel))
-    need(t, r"if self\.payload\.required_size\(self\.header\.required_size\(\)\) > u16::MAX as usize \{\s*return Err\(",
-         "ScionPacket::wire_valid payload bound `payload size > u16::MAX as usize`", rel)
+    U16MAX = r">\s*(?:u16::MAX\b|65_?535\b|0x[fF]{4}\b)|>=\s*(?:65_?536\b|0x1_?0000\b)"
+    expect(fn_body(t, "wire_valid"), U16MAX, "ScionPacket::wire_valid payload bound (`> u16::MAX`)", rel)
     rel = P + "proto/payload/udp/model.rs"
     t = strip_comments(src(rel))
-    need(t, r"if UdpDatagramLayout::HEADER_SIZE_BYTES \+ self\.payload\.len\(\) > u16::MAX as usize \{\s*return Err\(",
-         "UdpDatagram::wire_valid bound `8 + payload > u16::MAX as usize`", rel)
+    expect(fn_body(t, "wire_valid"), U16MAX, "UdpDatagram::wire_valid bound (`8 + payload > u16::MAX`)", rel)
     rel = P + "proto/header/model.rs"
     t = strip_comments(src(rel))
-    need(t, r"if required_size > ScionHeaderLayout::MAX_SIZE_BYTES \{\s*return Err\(",
-         "ScionPacketHeader::wire_valid bound `required_size > MAX_SIZE_BYTES`", rel)
+    expect(fn_body(t, "wire_valid"), r">\s*(?:\w+::)*MAX_SIZE_BYTES\b", "ScionPacketHeader::wire_valid bound (`> MAX_SIZE_BYTES`)", rel)
     out.append("Definition PAYLOAD_LEN_MAX : N := 65535.   (* u16::MAX, pinned in ScionPacket::wire_valid and UdpDatagram::wire_valid *)")
     # UDP view: set_length is a safe writer over LENGTH_RNG (has_required_size depends on it)
     out.append(f"Definition udp_set_length_is_safe : bool := {'true' if is_safe('UdpDatagramView', 'set_length') else 'false'}.")
